@@ -43,8 +43,8 @@ theorem verStep_int (x y : Text) (k : Int) :
     (if ((pv x).isNone && !(pv y).isNone) then (1 : Int)
      else if (!(pv x).isNone && (pv y).isNone) then -1
      else if (!(pv x).isNone && !(pv y).isNone) then
-       (if (Trans.compareVersionsInt ((pv x).getD default) ((pv y).getD default) != (0 : Int)) then
-          (-1) * Trans.compareVersionsInt ((pv x).getD default) ((pv y).getD default)
+       (if (Generated.Trans.compareVersionsGo ((pv x).getD default) ((pv y).getD default) != (0 : Int)) then
+          (-1) * Generated.Trans.compareVersionsGo ((pv x).getD default) ((pv y).getD default)
         else k)
      else k) =
     match verStep .eq x y with
@@ -53,7 +53,7 @@ theorem verStep_int (x y : Text) (k : Int) :
   unfold verStep
   cases hx : pv x <;> cases hy : pv y <;> simp [Trans.ordInt]
   rename_i vx vy
-  cases hc : compareVersions vx vy <;> simp [Trans.compareVersionsInt, Trans.ordInt, hc, Ordering.swap]
+  cases hc : compareVersions vx vy <;> simp [TransVersion.trans_compareVersions, Trans.ordInt, hc, Ordering.swap]
 
 theorem cmpCompare_eq (a b : Text) : Trans.cmpCompare a b = Trans.ordInt (cmpText a b) := by
   unfold Trans.cmpCompare cmpText
